@@ -9,16 +9,16 @@ Local Open Scope Z_scope.
 (** ** Instances used by the correspondence: float64 chord angles *)
 (** minDistance: less is <, sub is s1.ChordAngle.Sub (bd38ae9), zero() = 0, infinity() = +Inf *)
 Definition fmin_ops : dist_ops float :=
-  mkOps float PrimFloat.ltb s1_ChordAngle_Sub 0%float infinity PrimFloat.eqb.
+  mkOps float PrimFloat.ltb s1_ChordAngle_Sub 0%float infinity PrimFloat.eqb 0%float.
 (** maxDistance: less is >, sub is s1.ChordAngle.Add, zero() = StraightChordAngle = 4,
     infinity() = NegativeChordAngle = -1 *)
 Definition fmax_ops : dist_ops float :=
-  mkOps float (fun a b => PrimFloat.ltb b a) s1_ChordAngle_Add 4%float (-1)%float PrimFloat.eqb.
+  mkOps float (fun a b => PrimFloat.ltb b a) s1_ChordAngle_Add 4%float (-1)%float PrimFloat.eqb 0%float.
 (** the distance arithmetic before bd38ae9: raw -/+ on the squared chord lengths *)
 Definition fmin_ops_old : dist_ops float :=
-  mkOps float PrimFloat.ltb PrimFloat.sub 0%float infinity PrimFloat.eqb.
+  mkOps float PrimFloat.ltb PrimFloat.sub 0%float infinity PrimFloat.eqb 0%float.
 Definition fmax_ops_old : dist_ops float :=
-  mkOps float (fun a b => PrimFloat.ltb b a) PrimFloat.add 4%float (-1)%float PrimFloat.eqb.
+  mkOps float (fun a b => PrimFloat.ltb b a) PrimFloat.add 4%float (-1)%float PrimFloat.eqb 0%float.
 
 (** distance tables dumped by the harness: exact targets answer "d < limit ? d" *)
 Fixpoint lookup_e {A} (tbl : list (eid * A)) (e : eid) (d : A) : A :=
